@@ -79,6 +79,11 @@ func MustCompile(expr string, opts ...CompileOption) *Expression {
 
 // Evaluate the expression, returning either a collection of elements, or error
 func (e *Expression) Evaluate(input []fhir.Resource, options ...EvaluateOption) (system.Collection, error) {
+	for _, resource := range input {
+		if resource == nil {
+			return nil, errors.New("fhirpath: nil resource in input")
+		}
+	}
 	config := &opts.EvaluateConfig{
 		Context: expr.InitializeContext(slices.MustConvert[any](input)),
 	}
